@@ -489,6 +489,16 @@ func (conn *Conn) postConnect(ctx context.Context, start bool) {
 			conn.wg.Add(1)
 			go conn.ping(ctx)
 		}
+		// Cancelling the context must end the connection whatever its
+		// goroutines are doing: send may be inside a socket write to a peer
+		// that has stopped reading, recv inside a read, and runLoop inside a
+		// handler that waits for room in the output queue, so none of them
+		// is looking at ctx.Done(). Every teardown cancels ctx too, so this
+		// goroutine does not outlive the connection.
+		go func() {
+			<-ctx.Done()
+			conn.closeFor(ctx)
+		}()
 	}
 }
 
